@@ -298,3 +298,9 @@ def run(ck):
         c19_1(ck, prog)
         c19_2(ck, prog)
         c19_3(ck, prog)
+        r = ck.rule('C19.6', 'pending activations (and the messages they hold) survive everything but the end of the '
+                    'bus: the table of pending activations and the activation object are created once and released '
+                    'only by their destructors, never by a configuration reload', 'WHO',
+                    breaks='a reload while a service is starting forgets the held messages: they are neither delivered '
+                    'nor answered with an error', floor=3)
+        lib.state_lifetime(prog, r, [('BusActivation', 'pending_activations'), ('BusContext', 'activation')])
